@@ -1,7 +1,6 @@
 //! C07: block partitioning.  Real functions (through the verif hooks) vs model; oracle = RFC 5052
 //! formulas in u128.
-use crate::ctx::{guarded, Ctx, Engine, Oracle};
-use crate::rng::Rng;
+use harness_core::{guarded, Ctx, Engine, Oracle, Rng};
 use flute::verif_hooks as hk;
 
 fn ceil128(a: u128, b: u128) -> u128 {
@@ -74,7 +73,7 @@ impl Engine for PartEngine {
     }
 }
 
-fn one(ctx: &mut Ctx, eng: &mut PartEngine, b: u64, l: u64, e: u64, all_blocks: bool) {
+fn one(ctx: &mut Ctx, eng: &mut dyn Engine, b: u64, l: u64, e: u64, all_blocks: bool) {
     let obs = ctx.step(eng, &format!("part bp {} {} {}", b, l, e));
     ctx.evaluations += 1;
     let q: Vec<u64> = obs.split(' ').skip(1).filter_map(|x| x.parse().ok()).collect();
@@ -119,8 +118,7 @@ fn one(ctx: &mut Ctx, eng: &mut PartEngine, b: u64, l: u64, e: u64, all_blocks: 
     }
 }
 
-pub fn run(ctx: &mut Ctx) {
-    let eng = &mut PartEngine;
+pub fn run(ctx: &mut Ctx, eng: &mut dyn Engine) {
     let (bmax, emax, lmax) = if ctx.tier_thorough { (64, 24, 4000) } else { (16, 8, 800) };
     ctx.rule = format!(
         "exhaustive (B,E,L) with B<={},E<={},L<={} (incl. 0) plus boundary and seeded random triples up to B<2^32,E<=65535,L<2^48; \
@@ -166,4 +164,8 @@ pub fn run(ctx: &mut Ctx) {
         }
     }
     ctx.sample("part bp 3 23 4 -> ok 3 3 0 2 ; part bl 3 3 0 23 4 1 -> ok 11".to_string());
+}
+
+fn main() {
+    harness_core::engine_main("part", || Box::new(PartEngine), run);
 }
